@@ -8,6 +8,7 @@ export CARGO_NET_OFFLINE=true CARGO_TARGET_DIR="$WT/target"
 for D in "$@"; do
   D="$(cd "$D" && pwd)"; N=$(basename "$D")
   DEST=$(grep -m1 -oE 'cp <this file> [^ ]+' "$D/demo.rs" | awk '{print $4}')
+  [ -n "$DEST" ] || DEST=$(grep -m1 -oE 'cp [^ ]*demo\.rs [^ ]+' "$D/demo.rs" | awk '{print $3}')
   [ -n "$DEST" ] || DEST=$(grep -m1 -oE 'cp [^ ]*demo\.rs [^ ]+' "$D/meta.json" | awk '{print $3}')
   [ -n "$DEST" ] || { echo "$N: cannot find where the demo goes"; continue; }
   CRATE=$(echo "$DEST" | cut -d/ -f1); T=$(basename "$DEST" .rs)
